@@ -66,8 +66,12 @@ next_state.data = mu.data + kalman_gain * innovation;
 
 // Update Covariance
 // next_covariance = Sigma - K * H * Sigma
+// K * H * Sigma is symmetric in exact arithmetic, remove the rounding asymmetry
+const typename Covariance::DataT updated_covariance =
+    Sigma.data - kalman_gain * H * Sigma.data;
 Covariance next_covariance;
-next_covariance.data = Sigma.data - kalman_gain * H * Sigma.data;
+next_covariance.data =
+    (updated_covariance + updated_covariance.transpose()) / 2.0;
 
 // TODO(buck): Measurement Likelihood (optional)
 
